@@ -14,6 +14,7 @@ REPO = os.environ.get("VERIF_REPO", "/repo")
 BUILD = os.environ.get("VERIF_BUILD", os.path.join(VERIF, "build"))
 HB = os.path.join(BUILD, "h")
 NCPU = int(os.environ.get("VERIF_JOBS", "16"))
+RC_CHUNK = int(os.environ.get("VERIF_RC_CHUNK", "4000"))     # cases per rapidcheck process (see run_rc)
 
 CLANG_SAN = ["-fsanitize=address,undefined", "-fno-sanitize-recover=undefined", "-fno-omit-frame-pointer"]
 
@@ -278,32 +279,48 @@ def run_rc(prop, binary, wd, out, per_shard, max_size, shards=NCPU, known_ids=()
     """Run `shards` rapidcheck processes with seeds derived from VERIF_SEED; triage failures."""
     known = ",".join(known_ids)
 
+    # A shard runs as successive processes of at most RC_CHUNK cases (own derived seed each): the harnesses run under ASan with leak
+    # detection off where OCCA leaks by design, so one process per 120 000 cases grew to several GB and was killed by the kernel's
+    # OOM killer in the first thorough runs.  Quick tiers (<= RC_CHUNK cases per shard) are one process per shard, as before.
+    rounds = max(1, -(-per_shard // RC_CHUNK))
+
     def one(i):
-        env = base_env(wd, i)
-        env["RC_PARAMS"] = "seed=%d max_success=%d max_size=%d" % (derive(seed(), prop, i), per_shard, max_size)
-        env["VERIF_STATS"] = os.path.join(wd, "s%d.json" % i)
-        env["VERIF_CUR"] = os.path.join(wd, "s%d.cur" % i)
-        env["VERIF_FAIL"] = os.path.join(wd, "s%d.fail" % i)
-        env["VERIF_KNOWN"] = known
-        env["VERIF_TIER"] = tier
-        env["VERIF_SHARD"] = str(i)
-        if extra_env:
-            env.update(extra_env)
-        rc, dt = run_proc([binary], env, timeout, os.path.join(wd, "s%d.log" % i))
-        return i, rc, dt
+        rc, dt, left, r = 0, 0.0, per_shard, 0
+        sts = []
+        while left > 0 and rc == 0:
+            n = min(left, RC_CHUNK) if rounds > 1 else left
+            env = base_env(wd, i)
+            env["RC_PARAMS"] = "seed=%d max_success=%d max_size=%d" % (derive(seed(), prop, i) if r == 0 else derive(seed(), prop, i, r),
+                                                                        n, max_size)
+            env["VERIF_STATS"] = os.path.join(wd, "s%d.json" % i)
+            env["VERIF_CUR"] = os.path.join(wd, "s%d.cur" % i)
+            env["VERIF_FAIL"] = os.path.join(wd, "s%d.fail" % i)
+            env["VERIF_KNOWN"] = known
+            env["VERIF_TIER"] = tier
+            env["VERIF_SHARD"] = str(i)
+            if extra_env:
+                env.update(extra_env)
+            for f in ("VERIF_STATS", "VERIF_FAIL"):
+                if os.path.exists(env[f]):
+                    os.remove(env[f])
+            rc, d1 = run_proc([binary], env, timeout, os.path.join(wd, "s%d.log" % i))
+            dt += d1
+            if os.path.exists(env["VERIF_STATS"]):
+                try:
+                    sts.append(json.load(open(env["VERIF_STATS"])))
+                except ValueError:
+                    pass
+            left -= n
+            r += 1
+        return i, rc, dt, sts
 
     with ThreadPoolExecutor(max_workers=NCPU) as ex:
         results = list(ex.map(one, range(shards)))
     triaged = 0
-    for i, rc, dt in results:
-        sp = os.path.join(wd, "s%d.json" % i)
+    for i, rc, dt, sts_i in results:
         st = {}
-        if os.path.exists(sp):
-            try:
-                st = json.load(open(sp))
-            except ValueError:
-                st = {}
-        out.merge_stats(st)
+        for st in sts_i:
+            out.merge_stats(st)
         if rc == 0:
             continue
         logtxt = open(os.path.join(wd, "s%d.log" % i), errors="replace").read()
@@ -347,6 +364,13 @@ def run_rc(prop, binary, wd, out, per_shard, max_size, shards=NCPU, known_ids=()
         if not reproduced:
             what += "  [replay outcomes %s: not reproduced in isolation every time; shard log kept]" % sts
             save_replay(prop, os.path.join(wd, "s%d.log" % i), name + ".log")
+            if rc == -9 and all(s_ == "pass" for s_ in sts) and "abnormal exit" in what:
+                # SIGKILL, no sanitizer report, the case passes 3x in isolation: the process was killed from outside (the kernel's
+                # OOM killer, an operator): inconclusive for this shard, not a statement about the property
+                out.notes.append("shard %d was killed by SIGKILL (out of memory / external kill); its current case passes 3x in "
+                                 "isolation: inconclusive, not counted as a violation" % i)
+                os.remove(dst)
+                continue
         out.violations.append((dst, what))
     return out
 
